@@ -1,8 +1,8 @@
 """C06: fixed reproducers that run first on every tier.
 
-* F2, F4, F5 were repaired in /repo (fix: commits); their reproducers must PASS — a failure is reported with the
-  key ``api:regress:<id>``.
-* F1 and F3 are open findings; their reproducers go through the ordinary identity oracle, so that they are
+* F2, F5, F1-assert, F3 were repaired in /repo (fix: commits); their reproducers must PASS — a failure is
+  reported with the key ``api:regress:<id>``.
+* F1-hull and F4 are open findings; their reproducers go through the ordinary identity oracle, so that they are
   reported under the same keys as the search reports them (``api:block:AssertionError:reorder_stmts`` ...).
 """
 from __future__ import annotations
@@ -57,15 +57,33 @@ def run(ck, stats):
     # ---- F1 (open): reorder_stmts, block cursors on the reordered list
     p = A.make_proc(SRC_SEQ)
     p2, events, err = A.apply_candidate(lambda: S.reorder_stmts(p, p.body()[0:2]))
-    ck.case("api:regress", "F1", tag="F1-open", sample={"source": SRC_SEQ, "primitive": "reorder_stmts(body[0:2])"})
+    ck.case("api:regress", "F1", tag="F1-hull-open+assert-fixed", sample={"source": SRC_SEQ, "primitive": "reorder_stmts(body[0:2])"})
     A.check_forward(ck, p, p2, "reorder_stmts", {"source": SRC_SEQ, "primitives": ["reorder_stmts @ body[0:2]"]},
                     stats, events=events)
 
-    # ---- F3 (open): an exactly deleted block
+    # F1-assert (fixed): the block whose end points end up out of order must be reported invalid
+    try:
+        p2.forward(p.body()[0:2])
+    except ic.InvalidCursorError:
+        pass
+    except Exception as ex:
+        fail("F1-move-block-assert", SRC_SEQ, ["reorder_stmts body[0:2]; forward(body[0:2])"],
+             "forward raised %s instead of InvalidCursorError" % type(ex).__name__)
+
+    # ---- F3 (fixed): an exactly deleted block must be reported invalid
     p = A.make_proc(SRC_LOOP)
     p2, events, err = A.apply_candidate(lambda: S.delete_pass(p))
-    ck.case("api:regress", "F3", tag="F3-open", sample={"source": SRC_LOOP, "primitive": "delete_pass"})
+    ck.case("api:regress", "F3", tag="F3-fixed", sample={"source": SRC_LOOP, "primitive": "delete_pass"})
     A.check_forward(ck, p, p2, "delete_pass", {"source": SRC_LOOP, "primitives": ["delete_pass"]}, stats, events=events)
+    try:
+        p2.forward(p.body()[1:2])
+        fail("F3-deleted-block-empty", SRC_LOOP, ["delete_pass; forward(body[1:2])"],
+             "a cursor was returned for a block whose only statement was deleted")
+    except ic.InvalidCursorError:
+        pass
+    except Exception as ex:
+        fail("F3-deleted-block-empty", SRC_LOOP, ["delete_pass; forward(body[1:2])"],
+             "forward raised %s instead of InvalidCursorError" % type(ex).__name__)
 
     # ---- F2 (fixed): block cursor inside a wrapped body that does not start at the body's start
     p = A.make_proc(SRC_LOOP)
@@ -86,23 +104,14 @@ def run(ck, stats):
                 fail("F2-wrap-block-anchor", SRC_LOOP, ["divide_loop i 4 perfect; body[%d:%d]" % (lo, hi)],
                      "forward raised %s" % type(ex).__name__)
 
-    # ---- F4 (fixed): add_loop with guard
+    # ---- F4 (open): add_loop with a guard wraps TWO levels with one Block._wrap
     p = A.make_proc(SRC_GUARD)
     s = p.body()[0]
-    inner = s.body()[0]
-    p2 = S.add_loop(p, s, "al", 2, guard=True)
-    ck.case("api:regress", "F4", tag="F4-fixed", sample={"source": SRC_GUARD, "primitive": "add_loop(guard=True)"})
-    try:
-        f = p2.forward(inner)
-        if f._impl._node is not inner._impl._node:
-            fail("F4-add_loop-guard", SRC_GUARD, ["add_loop body[0] al 2 guard"],
-                 "cursor to `if i < 3` forwarded to `%s`" % str(f._impl._node).splitlines()[0])
-        f2 = p2.forward(s)
-        if not isinstance(f2._impl._node, LoopIR.For) or f2._impl._node.iter != s._impl._node.iter:
-            fail("F4-add_loop-guard", SRC_GUARD, ["add_loop body[0] al 2 guard"],
-                 "cursor to `for i` forwarded to `%s`" % str(f2._impl._node).splitlines()[0])
-    except Exception as ex:
-        fail("F4-add_loop-guard", SRC_GUARD, ["add_loop body[0] al 2 guard"], "forward raised %s" % type(ex).__name__)
+    p2, events, err = A.apply_candidate(lambda: S.add_loop(p, s, "al", 2, guard=True))
+    ck.case("api:regress", "F4", tag="F4-open", sample={"source": SRC_GUARD, "primitive": "add_loop(guard=True)"})
+    rp = {"source": SRC_GUARD, "primitives": ["add_loop @ body[0] al 2 guard=True"]}
+    A.check_forward(ck, p, p2, "add_loop:guard", rp, stats, events=events)
+    A.replay_in_model(ck, p, p2, events, "add_loop:guard", rp, stats, stream="api:regress-replay")
 
     # ---- F5 (fixed): a block moved from a body list into an orelse list takes the new attribute
     p = A.make_proc(SRC_ATTR)
